@@ -129,6 +129,9 @@ def check(repo: Repo, rep: Report) -> None:
     # ---- DecInt / FixStr / Dict / Tupl ---------------------------------------------------------
     cases = [(N("Tupl", N("DecInt"), N("FixStr", "/"), N("DecInt")), ([a], [], [b]), (1, 1), f"DecInt pair {a}/{b}")
              for a in (0, 9, 10, 99, 100, 12345) for b in (0, 7, 10)]
+    # a fixed string as the very last thing in the text, and a multi-character one
+    cases += [(N("Tupl", N("DecInt"), N("FixStr", "/")), ([a], []), (1, 1), f"DecInt {a} then a final '/'") for a in (0, 42)]
+    cases += [(N("Tupl", N("FixStr", "ab"), N("DecInt"), N("FixStr", "xyz")), ([], [a], []), (1, 1), f"'ab' DecInt {a} 'xyz'") for a in (0, 7, 120)]
     judge("RT-LEAF", "DecInt/FixStr/Tupl", cases)
     cases = [(N("Seq", N("Dict", [1, 2, "x"], ["a", "bc", "b"]), 3), list(t), (1, 1), f"Dict sequence {t}")
              for t in itertools.product([1, 2], repeat=3)]
